@@ -18,6 +18,8 @@ Expected(e, s) ==
     [] e.a = "CmpLit" -> [ok |-> LET x == DoCmp(s, e.args.rep, UnitIdx(e.args.unit), BI(e.args.v)) IN
                                    x.ok /\ (e.obs.lt = 1) = (x.ord < 0) /\ (e.obs.eq = 1) = (x.ord = 0) /\ (e.obs.gt = 1) = (x.ord > 0), st |-> s]
     [] e.a = "MulInt" -> DoMul(s, e.args.k)
+    [] e.a = "DivInt" -> DoDivInt(s, e.args.k)
+    [] e.a = "ModLit" -> DoMod(s, e.args.rep, UnitIdx(e.args.unit), BI(e.args.v))
     [] e.a = "Neg" -> DoNeg(s)
 ObsSt(e) == LET en == Encl(e.obs.mag, 1, 1) IN St(e.obs.rep, en.nl, en.dl, FromWire(e.obs.v))
 Same(a, b) == a.rep = b.rep /\ Cmp(a.n, b.n) = 0 /\ Cmp(a.d, b.d) = 0 /\ Cmp(a.v, b.v) = 0
